@@ -387,7 +387,7 @@ impl TypedScenario for C13Raw {
     fn budget(&self, tier: Tier) -> usize {
         match tier {
             Tier::Quick => 6000,
-            Tier::Thorough => 400_000,
+            Tier::Thorough => 2_000_000,
         }
     }
     fn generate(&self, seed: u64, index: usize, tier: Tier) -> Plan {
